@@ -120,13 +120,13 @@ Proof. vm_compute. reflexivity. Qed.
 (** Proved part 1 (universal over states): in every state [t] of the Patricia model that passes the
     executable structural check [p_inv_check] (the threads unfold into a tree in which every key below
     the left/right link of a node has bit 0/1 at the node's bit position, the keys in thread order are
-    strictly increasing, size = number of threads), the queries Get, Size, Floor, Ceiling, Select,
-    Rank, Range, RangeSize and All — with present or absent arguments — return exactly what the
+    strictly increasing, size = number of threads), the queries Get, Size, Min, Max, Floor, Ceiling,
+    Select, Rank, Range, RangeSize and All — with present or absent arguments — return exactly what the
     specification returns on the state's contents, and neither panic nor run out of fuel.
     Not proved: that Put/Delete/DeleteMin/DeleteMax lead from a checked state to a checked state with
     the specification's contents; the driver evaluates [p_inv_check] on the model after every mutator
-    of every replayed case and compares All() with the specification (correspondence). Min, Max and
-    Match are covered by the bounded theorem and the correspondence only. *)
+    of every replayed case and compares All() with the specification (correspondence).  Match is
+    covered by the bounded theorem and the correspondence only. *)
 Theorem C06_patricia_queries_checked_partial :
   forall (V : Type) (t : pstate V) (e : ev V), p_inv_check t = true -> checked_query e ->
     p_step t e = (t, snd (s_step (p_contents t) e)).
